@@ -52,6 +52,7 @@ import EsbuildModel.Impl.PartDepsDriver
 import EsbuildModel.Impl.ScopesSyntax
 import EsbuildModel.Impl.JsonDriver
 import EsbuildModel.Impl.CssLexDriver
+import EsbuildModel.Impl.StdioAsync
 
 open EsbuildModel
 
@@ -114,6 +115,7 @@ def dispatch (kernel : String) (args : List String) : String :=
   | "scope" => Scopes.driverAll args
   | "jsonrt" => Json.driver args
   | "csslex" => CssLex.driver args
+  | "stdioasync" => StdioAsync.driver args
   | _ => "bad-kernel"
 
 partial def loop (hin hout : IO.FS.Stream) : IO Unit := do
